@@ -45,6 +45,8 @@ pub fn jobs(seed: u64, tier: &str) -> Vec<Job> {
             out.push(Job { label: format!("random {mode} #{i} n={n}"), map, cfg });
         }
     }
+    // (the hand-shaped families below use the first four settings only - plain mods and clock rates: a Random mod would undo the
+    //  shape, and the list grows with seeded random settings)
     // long homogeneous runs (one colour / one column / one position): thresholds and caches that only show after dozens of
     // equal objects (mono streaks, repeated patterns, saturating bonuses)
     for (mi, mode) in ["osu", "taiko", "catch", "mania"].iter().enumerate() {
@@ -62,7 +64,7 @@ pub fn jobs(seed: u64, tier: &str) -> Vec<Job> {
                 t += gap + 30 * k;
             }
             if let Ok(map) = Beatmap::from_bytes(s.as_bytes()) {
-                out.push(Job { label: format!("run of {run} equal {mode} objects every {gap} ms"), map, cfg: all[(ri + mi) % all.len()].clone() });
+                out.push(Job { label: format!("run of {run} equal {mode} objects every {gap} ms"), map, cfg: all[(ri + mi) % 4].clone() });
             }
         }
     }
@@ -83,7 +85,7 @@ pub fn jobs(seed: u64, tier: &str) -> Vec<Job> {
                     t += if k < lead { 250 } else { pattern[(k - lead) % pattern.len()] };
                 }
                 if let Ok(map) = Beatmap::from_bytes(s.as_bytes()) {
-                    out.push(Job { label: format!("{mode} periodic rhythm {pattern:?} after {lead} even notes"), map, cfg: all[(pi + mi + lead) % all.len()].clone() });
+                    out.push(Job { label: format!("{mode} periodic rhythm {pattern:?} after {lead} even notes"), map, cfg: all[(pi + mi + lead) % 4].clone() });
                 }
             }
         }
@@ -103,7 +105,7 @@ pub fn jobs(seed: u64, tier: &str) -> Vec<Job> {
                 t += 150;
             }
             if let Ok(map) = Beatmap::from_bytes(s.as_bytes()) {
-                out.push(Job { label: format!("{mode} map with a break of {} s", brk / 1000), map, cfg: all[(bi + mi) % all.len()].clone() });
+                out.push(Job { label: format!("{mode} map with a break of {} s", brk / 1000), map, cfg: all[(bi + mi) % 4].clone() });
             }
         }
     }
